@@ -38,6 +38,11 @@ size_t libwifi_create_radiotap(struct libwifi_radiotap_info *info, char *radiota
         if (presence_bit & 1) {
             // Pad up to the next multiple of the field's alignment
             uint8_t align = radiotap_ns.align_size[field].align;
+            if (align == 0) {
+                // The size table does not define this field, so it cannot be placed
+                presence_bit >>= 1;
+                continue;
+            }
             uint8_t padding = (align - (offset % align)) % align;
             if (padding > 0) {
                 memset(rtap_data + offset, 0, padding);
